@@ -1,7 +1,94 @@
 import Hs.Model.Vx
+import Hs.Model.Tz
 namespace Hs.Drv.C06
+open Hs Hs.Vx Hs.Tz
 
-/-- requests `C06 <cmd> ...` (tokens after the property id) -/
-def handle (_ts : List String) : String := "bad-request"
+/-- `DB ::= k (H(tzid) offset)*k` — the zone offset function at the instant of the request -/
+def pDb : P TzDb := fun ts => do
+  let (k, ts) ← pNat ts
+  let (es, ts) ← pRep (fun ts => do
+    let (z, ts) ← pH ts
+    let (o, ts) ← pInt ts
+    pure ((z, o), ts)) k ts
+  pure ({ offsetAt := fun z _ =>
+    match es.find? (fun e => e.1 = z) with
+    | some e => e.2
+    | none => 999999999 }, ts)
+
+def dtReply (db : TzDb) : Res DT → String
+  | .ok d => s!"ok {d.secs} {d.ns} {d.offset db} {H d.tzid} {H d.short}"
+  | r => r.tag
+
+def fnv (ids : List (List Char)) : Nat :=
+  ids.foldl (fun h id =>
+    (id ++ ['\n']).foldl (fun h c => ((h ^^^ c.toNat) * 0x100000001b3) % 18446744073709551616) h) 0xcbf29ce484222325
+
+def sortedIds : List String := (Gen.Zones.zones.map String.ofList).toArray.qsort (· < ·) |>.toList
+
+def handle (ts : List String) : String :=
+  match ts with
+  | "offtext" :: ts =>
+    match pInt ts with
+    | some (off, _) => "ok " ++ H (offsetText off)
+    | none => "bad-request"
+  | "rfc" :: ts =>
+    (do
+      let (loc, ts) ← pInt ts
+      let (ns, ts) ← pNat ts
+      let (off, ts) ← pInt ts
+      let (db, _) ← pDb ts
+      pure (dtReply db (makeDateTime loc ns off))).getD "bad-request"
+  | "withtz" :: ts =>
+    (do
+      let (secs, ts) ← pInt ts
+      let (ns, ts) ← pNat ts
+      let (name, ts) ← pH ts
+      let (db, _) ← pDb ts
+      pure (dtReply db (makeDateTimeWithTz secs ns name))).getD "bad-request"
+  | "zenc" :: ts =>
+    (do
+      let (tzid, ts) ← pH ts
+      let (txt, _) ← pH ts
+      -- the RFC 3339 text is chrono's; the writer appends the city name unless the zone is UTC
+      let d : DT := ⟨0, 0, tzid⟩
+      pure ("ok " ++ H (if d.isUtc then txt else txt ++ ' ' :: d.short))).getD "bad-request"
+  | "jenc" :: ts =>
+    (do
+      let (tzid, ts) ← pH ts
+      let (txt, _) ← pH ts
+      let d : DT := ⟨0, 0, tzid⟩
+      pure ("ok " ++ H txt ++ " " ++ (if d.isUtc then "-" else H d.short))).getD "bad-request"
+  | "zdec" :: ts =>
+    (do
+      let (loc, ts) ← pInt ts
+      let (ns, ts) ← pNat ts
+      let (offTxt, ts) ← pH ts
+      let (name, ts) ← pHO ts
+      let (db, _) ← pDb ts
+      pure (dtReply db (zincDec ⟨loc, ns, offTxt, name⟩))).getD "bad-request"
+  | "jdec" :: ts =>
+    (do
+      let (loc, ts) ← pInt ts
+      let (ns, ts) ← pNat ts
+      let (off, ts) ← pInt ts
+      let (name, ts) ← pHO ts
+      let (db, _) ← pDb ts
+      pure (dtReply db (jsonDec ⟨loc, ns, off, name⟩))).getD "bad-request"
+  | "capi" :: ts =>
+    (do
+      let (secs, ts) ← pInt ts
+      let (ns, ts) ← pNat ts
+      let (name, ts) ← pH ts
+      let (db, _) ← pDb ts
+      match capiMakeTz secs ns name with
+      | .ok d => pure (dtReply db (.ok d) ++ s!" {(capiGetLocal db d).1}")
+      | r => pure r.tag).getD "bad-request"
+  | "zones" :: ts =>
+    (do
+      let (n, ts) ← pNat ts
+      let (h, _) ← pNat ts
+      let ids := sortedIds.map String.toList
+      pure (if ids.length = n ∧ fnv ids = h then "ok" else s!"mismatch {ids.length} {fnv ids}")).getD "bad-request"
+  | _ => "bad-request"
 
 end Hs.Drv.C06
